@@ -1,6 +1,201 @@
-/- stub: property C19 has no model driver yet -/
-namespace ActixModel.Drv.C19
+import ActixModel.Util
+import ActixModel.Model.PanicCore
+import ActixModel.Model.PanicChunk
+import ActixModel.Model.PanicWs
+import ActixModel.Model.PanicRange
+import ActixModel.Model.PanicPath
+import ActixModel.Model.PanicInfo
+import ActixModel.Model.PanicCD
+/-
+Line-protocol driver for C19.  One case = `<entry> key=value… <hex bytes>`.
 
-def run (_line : String) : String := "unimplemented"
+For the entry points that have a panic-explicit Lean model the driver prints the model's
+classification (`ok …` / `err…` / `none` / `PANIC`), which must equal what the real code did.
+For the pure fuzz entry points (no Lean model: httparse, serde, mime, cookie, regex … are
+third-party code) the driver prints the constant `unmodelled`, as does the implementation side:
+for those the output column carries no information and panics / hangs are reported through the
+oracle column only.
+See `harness/src/props/c19.rs` for the implementation side.
+-/
+namespace ActixModel.Drv.C19
+open ActixModel.Util ActixModel.Panic
+
+def natsOfBytes (bs : Bytes) : List Nat := bs.map (·.toNat)
+
+/-- last word = hex payload -/
+def payload (ws : List String) : List Nat :=
+  match ws.getLast? with
+  | some h => (bytesOfHex h).map natsOfBytes |>.getD []
+  | none => []
+
+/-- `seg=3,5,1`: cut sizes; the remainder is the last segment. `seg=-`: whole. `seg=1*`: bytewise -/
+def segments (ws : List String) (bs : List Nat) : List (List Nat) :=
+  match kv ws "seg" with
+  | none => [bs]
+  | some "-" => [bs]
+  | some "1*" => bs.map fun b => [b]
+  | some s =>
+    let cuts := (s.splitOn ",").filterMap (·.toNat?)
+    let rec go (cuts : List Nat) (bs : List Nat) (acc : List (List Nat)) : List (List Nat) :=
+      match cuts with
+      | [] => (bs :: acc).reverse
+      | c :: cs => go cs (bs.drop c) (bs.take c :: acc)
+    go cuts bs []
+
+def b01 (b : Bool) : String := if b then "1" else "0"
+
+def showSummary (s : Chunk.Summary) : String :=
+  "ok n=" ++ toString s.delivered ++ " eof=" ++ b01 s.eof ++ " left=" ++ toString s.left
+
+def runBody (k : Chunk.Kind) (ws : List String) : String :=
+  let bs := payload ws
+  match Chunk.feed k [] 0 (segments ws bs) with
+  | .ok s => showSummary s
+  | .err _ => "err"
+  | .panic _ => "PANIC"
+
+def runCl (ws : List String) : String :=
+  let v := payload ws
+  -- httparse: header value bytes are HTAB, 0x20..0x7e, 0x80..0xff (anything else fails the head)
+  if !(v.all fun b => b = 9 || (32 ≤ b && b ≠ 127)) then "err"
+  else match Chunk.contentLength v with
+    | .ok n => if n = 0 then "ok0" else "okN"
+    | .err _ => "err"
+    | .panic _ => "PANIC"
+
+def showOptLen : Option (List Nat) → String
+  | none => "-"
+  | some l => toString l.length
+
+def runWs (ws : List String) : String :=
+  let bs := payload ws
+  let server := kv ws "role" == some "s"
+  let maxSize := kvNat ws "max" 65536
+  match Ws.parse bs bs.length server maxSize with
+  | .panic _ => "PANIC"
+  | .err e => "err:" ++ e
+  | .ok (.none, _) => "none"
+  | .ok (.frame fin op pl, rest) =>
+    let close :=
+      if op = .close then
+        match pl with
+        | none => " cc=-"
+        | some p =>
+          match Ws.parseClosePayload p with
+          | .ok (some (code, d)) => " cc=" ++ toString code ++ "," ++ b01 d.isSome
+          | .ok none => " cc=-"
+          | .err _ => " cc=err"
+          | .panic _ => "PANIC"
+      else ""
+    if close == "PANIC" then "PANIC" else
+    "ok fin=" ++ b01 fin ++ " op=" ++ op.show ++ " pl=" ++ showOptLen pl ++
+      " rest=" ++ toString rest.length ++ close
+
+/-- `HeaderValue::from_bytes` accepts HTAB, 0x20..0x7e and 0x80..0xff -/
+def validHv (v : List Nat) : Bool := v.all fun b => b = 9 || (32 ≤ b && b ≠ 127)
+
+def hexNats (bs : List Nat) : String :=
+  if bs.isEmpty then "-" else hexOfBytes (bs.map UInt8.ofNat)
+
+def showSpec : Range.Spec → String
+  | .fromTo a b => toString a ++ "-" ++ toString b
+  | .from_ a => toString a ++ "-"
+  | .last n => "-" ++ toString n
+
+def runRange (ws : List String) : String :=
+  let v := payload ws
+  let fl := kvNat ws "fl" 1000
+  if !validHv v then "badhv"
+  else match Range.parseHeader v with
+    | none => "err"
+    | some (.unregistered u r) => "unreg " ++ hexNats u ++ " " ++ hexNats r
+    | some (.bytes specs) =>
+      let sats := specs.map fun sp => Range.toSatisfiable sp fl
+      if sats.any (·.isPanic) then "PANIC"
+      else
+        let showSat : Outcome (Option (Nat × Nat)) → String
+          | .ok (some (a, b)) => toString a ++ "-" ++ toString b
+          | _ => "x"
+        "bytes " ++ joinWith "," (specs.map showSpec) ++ " sat=" ++ joinWith "," (sats.map showSat)
+
+def hexStr (s : String) : String := hexOfBytes (bytesOfString s)
+
+def runFrange (ws : List String) : String :=
+  let v := payload ws
+  let size := kvNat ws "size" 10
+  if !validHv v then "badhv"
+  else match Range.fileRange v size with
+    | .panic _ => "PANIC"
+    | .err e => "err:" ++ e
+    | .ok .badRequest => "400 len=0"
+    | .ok (.unsatisfiable sz) => "416 cr=" ++ hexStr ("bytes */" ++ toString sz) ++ " len=0"
+    | .ok (.partial_ a b sz l) =>
+      "206 cr=" ++ hexStr ("bytes " ++ toString a ++ "-" ++ toString b ++ "/" ++ toString sz) ++ " len=" ++ toString l
+
+def runRpath (ws : List String) : String :=
+  let lens := ((kv ws "lens").getD "").splitOn "," |>.filterMap (·.toNat?)
+  let k := min (kvNat ws "k" 4) 4
+  let p0 := Path.P.new (Path.totalLen lens)
+  match Path.applyK lens k p0 0 with
+  | .panic _ => "PANIC"
+  | .err e => "err:" ++ e
+  | .ok (p, m) =>
+    let gs := [0, 1, 2, 3].map fun i => Path.getSeg p i
+    let it := Path.iterAll p
+    if gs.any (·.isPanic) || it.isPanic then "PANIC"
+    else
+      let showG : Outcome (Option Nat) → String
+        | .ok (some n) => toString n
+        | _ => "-"
+      let itn := match it with | .ok n => n | _ => 0
+      "ok m=" ++ toString m ++ " g=" ++ joinWith "," (gs.map showG) ++ " it=" ++ toString itn ++
+        " un=" ++ toString (p.len - p.unprocessedStart)
+
+def kvBytes (ws : List String) (key : String) : Option (List Nat) :=
+  match kv ws key with
+  | some h => (bytesOfHex h).map natsOfBytes
+  | none => none
+
+def runInfo (ws : List String) : String :=
+  let hs := ["f", "f2", "xf", "xp", "xh", "h"].filterMap (kvBytes ws)
+  if !(hs.all validHv) then "badhv"
+  else
+    let fwd := ["f", "f2"].filterMap (kvBytes ws)
+    let r := Info.connectionInfo fwd (kvBytes ws "xf") (kvBytes ws "xp") (kvBytes ws "xh") (kvBytes ws "h")
+    "host=" ++ hexNats r.host ++ " scheme=" ++ hexNats r.scheme ++ " realip=" ++
+      (match r.realip with | some x => hexNats x | none => "~")
+
+def showParam : CD.Param → String
+  | .name v => "N:" ++ hexNats v
+  | .filename v => "F:" ++ hexNats v
+  | .unknown n v => "U:" ++ hexNats n ++ ":" ++ hexNats v
+
+def runCd (ws : List String) : String :=
+  let v := payload ws
+  if v.contains 42 then "unmodelled"        -- extended parameters: `parse_extended_value` is not modelled
+  else if !validHv v then "badhv"
+  else match CD.fromRaw v with
+    | .panic _ => "PANIC"
+    | .err _ => "err"
+    | .ok (t, ps) =>
+      let ts := match t with
+        | .inline => "inline" | .attachment => "attachment" | .formData => "form-data"
+        | .ext s => "ext:" ++ hexNats s
+      "ok t=" ++ ts ++ " p=" ++ (if ps.isEmpty then "-" else joinWith "," (ps.map showParam))
+
+def run (line : String) : String :=
+  let ws := words line
+  match ws.head? with
+  | some "chunk" => runBody (.chunked .size 0) ws
+  | some "len" => runBody (.length (kvNat ws "n" 1)) ws
+  | some "cl" => runCl ws
+  | some "ws" => runWs ws
+  | some "range" => runRange ws
+  | some "frange" => runFrange ws
+  | some "rpath" => runRpath ws
+  | some "infom" => runInfo ws
+  | some "cdm" => runCd ws
+  | some _ => "unmodelled"
+  | none => "bad-case"
 
 end ActixModel.Drv.C19
